@@ -248,6 +248,9 @@ class Obj:
             return self.DATA_BASE + val
         return None
 
+    def ext_address(self, sym):
+        return self.ext_addr.setdefault(sym, self.EXT_BASE + 0x100000 * len(self.ext_addr))
+
     def sym_section(self, name):
         if name in ('.rodata', '.text', '.data', '.bss'):
             return name
